@@ -1,5 +1,6 @@
 #include "context.h"
 #include "item.h"
+#include <stdexcept>
 
 namespace ratio
 {
@@ -13,10 +14,31 @@ namespace ratio
     }
 
     context::operator expr() const { return expr(static_cast<item *>(ptr)); }
-    CORE_EXPORT context::operator bool_expr() const { return bool_expr(static_cast<bool_item *>(ptr)); }
-    CORE_EXPORT context::operator arith_expr() const { return arith_expr(static_cast<arith_item *>(ptr)); }
-    CORE_EXPORT context::operator string_expr() const { return string_expr(static_cast<string_item *>(ptr)); }
-    CORE_EXPORT context::operator var_expr() const { return var_expr(static_cast<var_item *>(ptr)); }
+    // the typed conversions are checked: an expression of the wrong kind (e.g., 'x | y' between reals, 'b + 1' on a bool) is a modeling error..
+    CORE_EXPORT context::operator bool_expr() const
+    {
+        if (bool_item *bi = dynamic_cast<bool_item *>(ptr))
+            return bool_expr(bi);
+        throw std::invalid_argument("expected a boolean expression..");
+    }
+    CORE_EXPORT context::operator arith_expr() const
+    {
+        if (arith_item *ai = dynamic_cast<arith_item *>(ptr))
+            return arith_expr(ai);
+        throw std::invalid_argument("expected an arithmetic expression..");
+    }
+    CORE_EXPORT context::operator string_expr() const
+    {
+        if (string_item *si = dynamic_cast<string_item *>(ptr))
+            return string_expr(si);
+        throw std::invalid_argument("expected a string expression..");
+    }
+    CORE_EXPORT context::operator var_expr() const
+    {
+        if (var_item *vi = dynamic_cast<var_item *>(ptr))
+            return var_expr(vi);
+        throw std::invalid_argument("expected an object variable..");
+    }
 
     expr::expr(item *const ptr) : context(ptr) {}
     CORE_EXPORT item &expr::operator*() const { return *static_cast<item *>(ptr); }
